@@ -267,11 +267,11 @@ fn anonymous(parser: &mut Parser) {
                     if parser.nth_raw(1) == parser.raw_range(raw_label_range.clone().unwrap())
                         && parser.matches(2, Kind::Semi) =>
                 {
-                    assert!(
-                        parser.eat(Kind::RBrace)
-                            && parser.eat(TokenSet::IDENT_LIKE)
-                            && parser.eat(Kind::Semi)
-                    );
+                    assert!(parser.eat(Kind::RBrace));
+                    // the closing label has the text of the opening one, but after
+                    // an escaped opening label ('\sub') it may lex as a keyword
+                    parser.eat_raw();
+                    assert!(parser.eat(Kind::Semi));
                     break;
                 }
                 _ => {
